@@ -115,6 +115,41 @@ def check_jacobians(seed, n_per, kinds=('R2', 'R3', 'SE2', 'SE3')):
                                       'analytic': J.tolist(), 'numeric': Jn.tolist()})
                 except Exception as ex:  # noqa
                     fails.append({'class': k, 'method': name, 'self': s, 'other': o, 'why': 'raised %r' % (ex,)})
+    # the Jacobians are functions of the CURRENT numbers of the pose, not of the object's history: call, overwrite the pose array in
+    # place (poses are ndarray subclasses), call again -> must equal the same call on a fresh pose holding the same numbers
+    METHS = ['jacobian_self_oplus_other_wrt_self', 'jacobian_self_oplus_other_wrt_self_compact', 'jacobian_self_oplus_other_wrt_other',
+             'jacobian_self_oplus_other_wrt_other_compact', 'jacobian_self_ominus_other_wrt_self', 'jacobian_self_ominus_other_wrt_self_compact',
+             'jacobian_self_ominus_other_wrt_other', 'jacobian_self_ominus_other_wrt_other_compact', 'jacobian_boxplus',
+             'jacobian_self_oplus_point_wrt_self', 'jacobian_self_oplus_point_wrt_point', 'jacobian_inverse']
+    for k in kinds:
+        for name in METHS:
+            for i in range(max(1, n_per // 10)):
+                s1, s2 = safe_vals(rng, k, 'typical'), safe_vals(rng, k, 'typical')
+                if k == 'SE2':
+                    s2 = list(s2[:2]) + [rng.uniform(-3, 3)]
+                elif k == 'SE3':
+                    nq = math.sqrt(sum(x * x for x in s2[3:])) or 1.0
+                    s2 = list(s2[:3]) + [x / nq for x in s2[3:]]
+                args = []
+                if 'point' in name:
+                    args = [make_pose(POINT[k], safe_vals(rng, POINT[k], 'typical'))]
+                elif 'other' in name:
+                    args = [make_pose(k, safe_vals(rng, k, 'typical'))]
+                try:
+                    p = make_pose(k, list(s1))
+                    getattr(p, name)(*args)
+                    np.ndarray.__setitem__(p, slice(None), np.array(s2, dtype=np.float64))
+                    J2 = np.asarray(getattr(p, name)(*args), dtype=np.float64)
+                    fresh = make_pose(k, [float(x) for x in np.asarray(p)])
+                    Jf = np.asarray(getattr(fresh, name)(*args), dtype=np.float64)
+                    evals += 1
+                    if J2.shape != Jf.shape or not np.allclose(J2, Jf, rtol=0, atol=1e-12 * (1 + np.abs(Jf).max())):
+                        fails.append({'class': k, 'method': name, 'self': [float(x) for x in np.asarray(p)], 'other': [float(x) for a in args for x in np.asarray(a)],
+                                      'why': 'the Jacobian depends on the HISTORY of the pose object: after %s() the pose array was overwritten in place '
+                                             '(first values %s) and the next call differs from the same call on a fresh pose with the same numbers' % (name, s1),
+                                      'stale': J2.tolist(), 'fresh': Jf.tolist(), 'history': {'first_values': list(s1)}})
+                except Exception as ex:  # noqa
+                    fails.append({'class': k, 'method': name, 'self': s1, 'other': [], 'why': 'raised %r' % (ex,)})
     return evals, fails
 
 
@@ -215,6 +250,22 @@ def group_laws(seed, n_per, kinds=('R2', 'R3', 'SE2', 'SE3')):
                 chk(k, 'boxplus_def', okb, dict(data, d=d))
             except Exception as ex:  # noqa
                 chk(k, 'raised %r' % (ex,), False, data)
+        # the identity element is a VALUE: accumulating onto a pose obtained from identity() (dead reckoning: acc = identity(); acc += step)
+        # must not change what identity() returns afterwards, nor an earlier copy of it
+        try:
+            cls = CLS[k]
+            ident0 = np.asarray(cls.identity()).copy()
+            acc = cls.identity()
+            for _ in range(3):
+                acc += make_pose(k, safe_vals(rng, k, 'typical'))
+            ident1 = np.asarray(cls.identity())
+            chk(k, 'identity_is_a_value', np.array_equal(ident0, ident1) and np.allclose(hom(k, ident1), np.eye(len(hom(k, ident1)))),
+                {'a': ident0.tolist(), 'after_accumulating_onto_identity': ident1.tolist(), 'sequence': 'acc = identity(); acc += step (x3); identity()'})
+            A = make_pose(k, safe_vals(rng, k, 'typical'))
+            chk(k, 'identity_right_after_accumulation', np.allclose((A + cls.identity()).to_array(), A.to_array(), rtol=0, atol=1e-9 * (1 + np.abs(np.asarray(A)).max())),
+                {'a': [float(x) for x in np.asarray(A)], 'identity_now': ident1.tolist()})
+        except Exception as ex:  # noqa
+            chk(k, 'raised %r' % (ex,), False, {'sequence': 'identity accumulation'})
     return evals, fails
 
 
@@ -297,6 +348,39 @@ def manifold_invariants(seed, n, chain_len=None):
             nn = float(np.linalg.norm(v.pose[3:]))
             if not abs(nn - 1.0) <= 1e-9:
                 bad('vertex quaternion norm %r after %d iterations' % (nn, iters), {'class': 'SE3', 'seed': seed, 'graph': i})
+                break
+    # exact half-turns (scalar part exactly 0.0) and their products: every operation keeps a unit quaternion and the right rotation
+    half = [[1.0, 0.0, 0.0, 0.0], [0.0, 1.0, 0.0, 0.0], [0.0, 0.0, 1.0, 0.0], [0.6, 0.8, 0.0, 0.0], [0.0, -0.6, 0.8, 0.0]]
+    s2_ = math.sqrt(0.5)
+    quarter = PoseSE3([0.0, 0.0, 0.0], [0.0, 0.0, s2_, s2_])
+    poses_h = [PoseSE3([rng.gauss(0, 2) for _ in range(3)], q) for q in half] + [quarter + quarter]
+    for P in poses_h:
+        O = PoseSE3([rng.gauss(0, 1) for _ in range(3)], half[rng.randrange(len(half))])
+        for nm, Rr in (('inverse', P.inverse), ('oplus', P + O), ('ominus', P - O), ('ominus_rev', O - P), ('inverse_of_product', (P + O).inverse)):
+            evals += 1
+            nn = float(np.linalg.norm(np.asarray(Rr)[3:]))
+            if not abs(nn - 1.0) <= 1e-12:
+                bad('SE3 quaternion norm %r after %s of an exact half-turn (scalar part exactly 0)' % (nn, nm),
+                    {'class': 'SE3', 'pose': [float(x) for x in P], 'other': [float(x) for x in O], 'result': [float(x) for x in Rr]})
+        Mi = hom('SE3', P.inverse.to_array()) if abs(float(np.linalg.norm(np.asarray(P.inverse)[3:])) - 1) < 1e-6 else None
+        if Mi is not None and not np.allclose(Mi @ hom('SE3', P.to_array()), np.eye(4), atol=1e-9):
+            bad('inverse of an exact half-turn is not the inverse transform', {'class': 'SE3', 'pose': [float(x) for x in P]})
+    # exactly-unit rotation increments (|d| = 1.0 as computed by np.linalg.norm, whatever the plain sum of squares rounds to)
+    units = [[s2_, s2_, 0.0], [1 / math.sqrt(3)] * 3, [3 / 13, 4 / 13, 12 / 13], [1.0, 0.0, 0.0], [0.6, 0.8, 0.0]]
+    for i in range(n):
+        v = np.array([rng.gauss(0, 1) for _ in range(3)])
+        units.append([float(x) for x in v / np.linalg.norm(v)])
+    P0 = PoseSE3([0.5, -1.0, 2.0], [0.1, -0.2, 0.3, math.sqrt(1 - 0.14)])
+    for d in units:
+        evals += 1
+        Rr = P0 + np.array([0.1, 0.2, 0.3] + list(d))
+        vtx = Vertex(0, P0.copy())
+        vtx.pose += np.array([0.0, 0.0, 0.0] + list(d))
+        for nm, X in (('boxplus', Rr), ('+= on a vertex pose', vtx.pose)):
+            q = np.asarray(X)[3:]
+            if not np.all(np.isfinite(np.asarray(X))) or abs(float(np.linalg.norm(q)) - 1.0) > 1e-7:
+                bad('%s with an exactly-unit rotation increment gives a non-unit / non-finite quaternion' % nm,
+                    {'class': 'SE3', 'increment_rotation': list(d), 'norm_as_numpy_computes_it': float(np.linalg.norm(np.array(d))), 'result': [float(x) for x in X]})
                 break
     # normalize: random quaternions plus fixed awkward ones (unit with w<0, identity negated, almost-unit, w = 0)
     fixed_q = [[0.5, 0.5, 0.5, -0.5], [0.0, 0.0, 0.0, -1.0], [0.6, 0.0, 0.0, -0.8], [0.5, 0.5, 0.5, 0.5 * (1 + 1e-6)],
